@@ -62,14 +62,25 @@ class EqIntern:
         return len(self.seen) - 1
 
 
+_KEYCACHE = {}
+
+
 def keypool(seeds):
     from allmydata.crypto import ed25519
     from allmydata.util.base32 import b2a
     res = []
     for h in seeds:
-        sk, pk = ed25519.signing_keypair_from_string(b"priv-v0-" + b2a(bytes.fromhex(h)))
-        res.append((sk, pk, ed25519.string_from_verifying_key(pk)[len(b"pub-"):]))
+        if h not in _KEYCACHE:
+            sk, pk = ed25519.signing_keypair_from_string(b"priv-v0-" + b2a(bytes.fromhex(h)))
+            _KEYCACHE[h] = (sk, pk, ed25519.string_from_verifying_key(pk)[len(b"pub-"):])
+        res.append(_KEYCACHE[h])
     return res
+
+
+def big_pool_seeds(n):
+    """a fixed pool of announcer keys shared by all many-key histories (key generation and lookup are cached)"""
+    import hashlib
+    return [hashlib.sha256(b"C34-pool-%d" % i).hexdigest() for i in range(n)]
 
 
 # ----------------------------------------------------------------------------- wire encoding (JSON-able)
@@ -326,15 +337,19 @@ class Tables:
         for s in subs:
             self.svcid(s)
         self.honest = {}
+        self.signed = set()
         self.parsed = {}
 
-    def learn(self, msg):
+    def learn(self, msg, cands=None):
         from allmydata.crypto import ed25519
-        if msg in self.parsed:
-            return
-        self.parsed[msg] = self.classify_msg(msg)
-        for k, (sk, _, _) in enumerate(self.pool):
-            self.honest[ed25519.sign_data(sk, msg)] = (k, self.msgid(msg))
+        if msg not in self.parsed:
+            self.parsed[msg] = self.classify_msg(msg)
+        # small pools: every key's signature on the message is known; large pools: only the keys the generator used on it
+        ks = range(len(self.pool)) if (cands is None or len(self.pool) <= 8) else cands
+        for k in ks:
+            if (k, msg) not in self.signed:
+                self.signed.add((k, msg))
+                self.honest[ed25519.sign_data(self.pool[k][0], msg)] = (k, self.msgid(msg))
 
     def classify_msg(self, msg):
         from allmydata.introducer.common import get_tubid_string_from_ann
@@ -387,11 +402,11 @@ class Tables:
             return self.keyid[canon]
         return 100 + self.junk(("key", canon))
 
-    def token(self, w):
+    def token(self, w, cands=None):
         if len(w) != 3 or not isinstance(w[0], bytes) or any(not (f is None or isinstance(f, bytes)) for f in w[1:]):
             return "G"
         msg, sig, key = w
-        self.learn(msg)
+        self.learn(msg, cands)
         if not sig:
             s = "F"
         elif not sig.startswith(b"v0-"):
@@ -438,7 +453,8 @@ def run_stream(ctx, case, workdir, n):
     subs = case["subs"]
     T = Tables(pool, subs)
     batches = [[wire_tuple(x["w"]) for x in b] for b in case["batches"]]
-    toks = [[T.token(w) for w in b] for b in batches]
+    toks = [[T.token(w, sorted(set(k for k in (x["meta"].get("signer"), x["meta"].get("claimed")) if isinstance(k, int))))
+             for w, x in zip(b, cb)] for b, cb in zip(batches, case["batches"])]
     line = "intro %s %s" % (",".join(str(T.svcid(s)) for s in subs) or "-", " | ".join(" ".join(b) for b in toks))
     line = " ".join(line.split())
 
@@ -565,7 +581,47 @@ CORPUS = [
     {"reuse_sig": True},
     # other spellings of a genuine key string on genuinely signed stale / fresh announcements (seed C34-c accepted them as new identities)
     {"spellings": True},
+    # the table of remembered announcements must not forget: a victim publishes seqnum 1..5, 300 one-shot keys announce, then
+    # the victim's seqnum 3 is replayed (seed C34-e evicted the oldest entries beyond 256)
+    {"many_keys": 300},
 ]
+
+
+def many_keys_history(rng, nkeys):
+    """victim keys with growing sequence numbers, a few hundred one-shot announcers in between, replays of the victims' older
+    announcements afterwards; rng None = the fixed corpus history"""
+    from allmydata.crypto import ed25519
+    from allmydata.util.base32 import b2a
+    import random
+    rng = rng or random.Random("C34-many-keys")
+    seeds = big_pool_seeds(nkeys + 2)
+    pool = keypool(seeds)
+
+    def wire(k, d, kind):
+        msg = json.dumps(d).encode("utf-8")
+        w = [msg, b"v0-" + b2a(ed25519.sign_data(pool[k][0], msg)), pool[k][2]]
+        return {"w": [enc(f) for f in w], "meta": {"kind": kind, "signer": k, "claimed": k, "intact": True}}
+    batches = []
+    hist = {0: [], 1: []}
+    for v in (0, 1):
+        for sq in range(1, 6):
+            x = wire(v, {"service-name": "storage", "seqnum": sq, "nickname": "victim%d" % v, "x": sq}, "new")
+            hist[v].append(x)
+            batches.append([x])
+    oneshot = [wire(2 + j, {"service-name": "storage", "seqnum": rng.randrange(1, 100), "nickname": "one%d" % j}, "new") for j in range(nkeys)]
+    pos = 0
+    while pos < len(oneshot):
+        step = rng.choice([20, 50, 80])
+        b = oneshot[pos:pos + step]
+        pos += step
+        if rng.random() < 0.5:       # replays interleaved with the crowd
+            b = b + [dict(rng.choice(hist[rng.randrange(2)][:4]), meta=dict(hist[0][0]["meta"], kind="old"))]
+        batches.append(b)
+    for v in (0, 1):
+        batches.append([dict(hist[v][2], meta=dict(hist[v][2]["meta"], kind="old"))])          # seqnum 3 again: refused, 5 stays
+        batches.append([dict(hist[v][4], meta=dict(hist[v][4]["meta"], kind="replay"))])       # seqnum 5 again: duplicate
+    batches.append([wire(0, {"service-name": "storage", "seqnum": 6, "nickname": "victim0", "x": 6}, "new")])
+    return {"seeds": seeds, "subs": ["storage"], "batches": batches}
 
 
 def corpus_case(spec):
@@ -577,6 +633,8 @@ def corpus_case(spec):
     def honest(k, d):
         msg = json.dumps(d).encode("utf-8") if not isinstance(d, bytes) else d
         return [msg, b"v0-" + b2a(ed25519.sign_data(pool[k][0], msg)), pool[k][2]]
+    if "many_keys" in spec:
+        return many_keys_history(None, spec["many_keys"])
     if "reuse_sig" in spec:
         g = honest(0, {"service-name": "storage", "seqnum": 1, "nickname": "a", "x": 0})
         batches = [[{"w": [enc(f) for f in g], "meta": {"kind": "new", "signer": 0, "claimed": 0, "intact": True}}]]
@@ -632,8 +690,12 @@ def run(ctx):
             cases = [ctx.replay["case"]]
         else:
             cases = [corpus_case(s) for s in CORPUS]
-            for _ in range(ctx.budget(600, 8000)):
-                cases.append(gen_stream(ctx.rng))
+            if not os.environ.get("VERIF_CORPUS_ONLY"):
+                for _ in range(ctx.budget(600, 8000)):
+                    cases.append(gen_stream(ctx.rng))
+                mrng = ctx.subrng("many-keys")
+                for _ in range(ctx.budget(2, 25)):
+                    cases.append(many_keys_history(mrng, mrng.choice([258, 270, 300, 330])))
         impl, lines = [], []
         for n, case in enumerate(cases):
             out, line = run_stream(ctx, case, workdir, n)
